@@ -119,17 +119,20 @@ def gj_solve(m=[1., 0.], n=3, nb=1, result=[0.0, 0.0]):
     augCol = n + nb
     nt = n + nb
 
-    for col in range(colrange):
-        bigrow = col
-        for row in range(col + 1, colrange):
-            if abs(m[nt*row + col]) > abs(m[nt*bigrow + col]):
-                bigrow = row
-                temp = m[nt*row + col]
-                m[nt*row + col] = m[nt*bigrow + col]
-                m[nt*bigrow + col] = temp
-
     rr, rrcol, rb, rbr, kup, kupr, kleft, kleftr = declare('int', 8)
     for rrcol in range(0, colrange):
+        # Partial pivoting: move the row with the largest entry of this
+        # column (on or below the diagonal) to the pivot position.
+        bigrow = rrcol
+        for row in range(rrcol + 1, eqns):
+            if abs(m[nt*row + rrcol]) > abs(m[nt*bigrow + rrcol]):
+                bigrow = row
+        if bigrow != rrcol:
+            for col in range(augCol):
+                temp = m[nt*rrcol + col]
+                m[nt*rrcol + col] = m[nt*bigrow + col]
+                m[nt*bigrow + col] = temp
+
         for rr in range(rrcol + 1, eqns):
             dnr = float(m[nt*rrcol + rrcol])
             if abs(dnr) < 1e-12:
